@@ -190,7 +190,7 @@ class CallsMixin:
             if mod.startswith("hypercorn"):
                 return self.call_repo_function(f, args, kwargs, fr, awaited)
         if isinstance(f, EventClassValue):
-            obj = SObj(class_of("hypercorn.typing:Event"), {"flag": False}, tag=self.ctx.fresh_name("event"))
+            obj = SObj(class_of("hypercorn.typing:Event"), {"flag": False, "g_sticky": False}, tag=self.ctx.fresh_name("event"))
             self.register_shared(obj)
             return obj
         if isinstance(f, SymOpaque):
@@ -334,6 +334,8 @@ class CallsMixin:
             # 3. contract on the method (own class or along the MRO / interface)
             fc = self.find_method_contract(cls, name)
             if fc is not None and not self.is_inlining(fc.qualname):
+                if not awaited and self.contract_is_async(fc):
+                    return Coro(lambda: self.apply_contract(fc, [obj] + list(args), kwargs, fr), fc.qualname)
                 return self.apply_contract(fc, [obj] + list(args), kwargs, fr)
             # 4. inline the real body
             if isinstance(cls, type):
@@ -350,6 +352,13 @@ class CallsMixin:
         if isinstance(obj, SuperProxy):
             return None
         return self.call_value_method(obj, name, args, kwargs, fr)
+
+    def contract_is_async(self, fc) -> bool:
+        try:
+            _mi, node = find_def(fc.qualname)
+            return isinstance(node, ast.AsyncFunctionDef)
+        except Exception:
+            return False
 
     def find_method_contract(self, cls, name):
         if isinstance(cls, type):
